@@ -279,6 +279,15 @@ func (u *Upload) InsertRecord(r *benchfmt.Result) error {
 		return nil
 	}
 	// TODO(quentin): Support multiple lines (slice of results?)
+	// Flush first if this record's labels would not fit in the current
+	// batch: a flush in the middle of a record would insert it
+	// before later results with the same labels could be appended,
+	// splitting one record in two.
+	if n := 4 * (len(r.Labels) + len(r.NameLabels)); len(u.insertLabelArgs) > 0 && len(u.insertLabelArgs)+n > 990 {
+		if err := u.flush(); err != nil {
+			return err
+		}
+	}
 	var buf bytes.Buffer
 	if err := benchfmt.NewPrinter(&buf).Print(r); err != nil {
 		return err
